@@ -203,6 +203,27 @@ def run(F, R, tier):
 
     _static_runtime(F, R)
 
+    # ---- R4: units of the THDM formulas ---------------------------------------------------------
+    from .rules_c07 import check_units
+    from fractions import Fraction as Fr
+    R.rule("R4", "every function of the THDM one-/two-loop and uncertainty code is dimensionally consistent and "
+                 "dimensionless (a_mu is a function of mass ratios: prerequisite of the (v/M)^2 decoupling)", 60)
+    loopfn = re.compile(r"^gm2calc::(thdm::)?(\(anonymous namespace\)::)?(Fa|Fb|Ixyz|F1C|F2C|F3C|F4C|F1N|F2N|F3N|F4N|G3|G4|"
+                        r"f_PS|f_S|f_sferm|dilog|Phi|lambda_2|FPZ|FSZ|FCWl|FCWu|FCWd|f_CSl|f_CSd|f_CSu|is_equal_rel|"
+                        r"is_equal|is_zero|sort|shift)$")
+    files = ("src/THDM/gm2_1loop_H.cpp", "src/THDM/gm2_2loop_B.cpp", "src/THDM/gm2_2loop_F.cpp", "src/THDM/gm2_uncertainty.cpp")
+    rd = {"calc_v2": Fr(2)}
+    # parameter naming convention of these files: m..2 = squared mass, ml/mv/mHp/q = mass, everything else a ratio
+    for k, fn in F.functions.items():
+        if fn["file"] in files:
+            short = fn["name"].split("::")[-1]
+            pd = {}
+            for p in fn["params"]:
+                nm = p["name"] or ""
+                pd[nm] = Fr(2) if re.match(r"^m\w*2$", nm) else (Fr(1) if nm in ("ml", "mv", "mHp", "q") else Fr(0))
+            rd[("params", short)] = pd
+    check_units(F, R, "R4", files, rd, loopfn, skip=("shift",))
+
     # ---- R3: bosonic ----------------------------------------------------------------------------------------------
     R.rule("R3", "bosonic 2-loop: the light Higgs mass mh(0) is read by exactly one function, whose result carries "
                  "cos(beta-alpha) as an overall factor", 2)
